@@ -89,6 +89,22 @@ def real_members(cls):
             for m in ms]
 
 
+def ref_members(cls):
+    """harness-side reference for 'the members the bindings declare for a class': the class's own table and those
+    of all its base classes, read directly from the class objects (NOT through _get_members, which is under test)"""
+    out, seen = [], set()
+    for k in cls.__mro__:
+        for m in k.__dict__.get("member_data_items_", []) or []:
+            if id(m) in seen:
+                continue
+            seen.add(id(m))
+            dt = m.data_type
+            if isinstance(dt, list):
+                dt = dt[-1] if dt else "xs:string"
+            out.append((m.name, dt, 0 if m.container == 0 else 1, 1 if m.optional else 0))
+    return out
+
+
 class Ids:
     """first-visit numbering of object identities (keeps the objects alive so ids are not reused)"""
 
@@ -361,7 +377,7 @@ def run_real(script):
         except Exception:  # noqa
             sok = False
         before = snapshot(parent, ids)
-        members = [(m.get_name(), m.get_data_type(), m.get_container()) for m in type(parent)._get_members()]
+        members = [(n, d, c) for n, d, c, _o in ref_members(type(parent))]
         slot_before = dict((n, vars(parent)[n]) for n, _d, _c in members if n in vars(parent))
         list_before = dict((n, list(v)) for n, v in slot_before.items() if isinstance(v, list))
         ret, exc, tags = None, None, []
@@ -495,7 +511,7 @@ def oracle(ctx, script, i, call, R):
 # ------------------------------------------------------------------ generators
 def simple_members(cls):
     C = classes()
-    return [m for m in real_members(cls) if m[1] not in C and m[2] == 0 and m[0] not in ("__ANY__",)]
+    return [m for m in ref_members(cls) if m[1] not in C and m[2] == 0 and m[0] not in ("__ANY__",)]
 
 
 def child_entry(rng, cname, variant):
@@ -520,7 +536,7 @@ def gate_choice(rng, p_on=0.15):
 def gen_pairs_script(rng, pname, all_children):
     """one history on a fresh parent of class pname that covers every candidate-bearing child class"""
     C = classes()
-    ms = real_members(C[pname])
+    ms = ref_members(C[pname])
     by_type = {}
     for m in ms:
         by_type.setdefault(m[1], []).append(m)
@@ -539,6 +555,10 @@ def gen_pairs_script(rng, pname, all_children):
         # prefer a non-candidate member that itself holds components (a wrong-store would then go unnoticed by types)
         obj_non_cand = [m[0] for m in ms if m[1] in C and m[0] not in cand_names]
         hints = [None, ""] + cand_names + ["zz_no_such_member"]
+        if len(cands) > 1:
+            c0 = rng.choice(cand_names)
+            # near misses: proper substrings / superstrings / other case of a candidate's name
+            hints += [c0[:-1], c0[1:], c0[:1], c0 + "_", c0.upper(), " " + c0]
         if obj_non_cand:
             hints.append(rng.choice(sorted(obj_non_cand)))
         elif non_cand:
@@ -580,7 +600,7 @@ def interesting_parents():
         C = classes()
         multi, rich = [], []
         for n, c in C.items():
-            ms = real_members(c)
+            ms = ref_members(c)
             types = [m[1] for m in ms if m[1] in C]
             if len(types) != len(set(types)):
                 multi.append(n)
@@ -609,10 +629,10 @@ def gen_history_script(rng):
         for _ in range(rng.randint(2, 6)):
             k = rng.choice(keys)
             pool.append({"xml": k, "copy": rng.randint(0, 1)})
-        ms = real_members(C[pname])
+        ms = ref_members(C[pname])
     else:
         pname = rng.choice(multi) if r < 0.65 else rng.choice(rich)
-        ms = real_members(C[pname])
+        ms = ref_members(C[pname])
     types = sorted({m[1] for m in ms if m[1] in C})
     for _ in range(rng.randint(2, 7)):
         t = rng.choice(types)
@@ -648,7 +668,8 @@ def gen_history_script(rng):
         elif hr < 0.9:
             hint = rng.choice(names)
         else:
-            hint = rng.choice(["", "zz_no_such_member", "Forward_rate", "forward_rate "])
+            hint = rng.choice(["", "zz_no_such_member"] + ([x for c in cand for x in (c[:-1], c[1:], c[:3], c + "s", c.capitalize())]
+                                                           if cand else ["e", "s"]))
         if corrupt:
             en, val = rng.choice([(True, False), (False, True), (False, False)])
         else:
